@@ -353,6 +353,24 @@ def rust_literals(fns):
     return out
 
 
+def c_const_stores(body):
+    """(field, value) for every `state->field = <integer literal>;` of a C function body"""
+    out = set()
+    for m in re.finditer(r"\b(?:s|state|strm)->(?:x\.|strm\.)?(\w+)\s*=\s*(-?\d+)\s*;", body):
+        out.add((m.group(1), int(m.group(2))))
+    return sorted(out)
+
+
+def rust_const_stores(fns):
+    out = set()
+    for f in fns:
+        for bi, fp, root, rv, st in f.field_writes():
+            v = f.const_of(rv)
+            if v is not None and fp:
+                out.add((str(fp[-1]).lower(), int(v)))
+    return out
+
+
 def rust_callee_names(fns):
     out = set()
     for f in fns:
@@ -419,9 +437,12 @@ def check(ck, P, rule, only=None):
         for f in allf:
             st += rust_atoms(f)
         cname = key.split(":")[1]
+        cond_ok_consts = set()
         for c in pins:
             n += 1
             m = find(c, st)
+            if m is not None:
+                cond_ok_consts.update(c["consts"])
             ck.decide(m is not None, rule, "%s:%s" % (cname, c["text"]), "counterpart present",
                       "zlib-ng's %s decides with `%s`; no branch or boolean value of %s tests %s any more - the port has lost or changed "
                       "a condition of its reference" % (cname, c["text"], ", ".join(f.path.replace(Z, "") for f in fns),
@@ -438,10 +459,19 @@ def check(ck, P, rule, only=None):
             ck.decide(bool(alts & wr), rule, "%s:stores:%s" % (cname, cf), "still stored",
                       "zlib-ng's %s assigns `%s`; %s (with its helpers) no longer stores it: the port has lost a state update of its reference"
                       % (cname, cf, ", ".join(f.path.replace(Z, "") for f in fns)), where(fns[0]))
+        cst = rust_const_stores(allf)
+        for cf, v in table.get("const_stores", {}).get(key, []):
+            n += 1
+            alts = ALIAS.get(cf.lower(), {cf.lower()}) | {cf.lower()}
+            ck.decide(any((a_, v) in cst for a_ in alts), rule, "%s:stores:%s=%d" % (cname, cf, v), "still stored",
+                      "zlib-ng's %s sets `%s = %d`; %s (with its helpers) no longer stores that value in it: a flag or counter of the "
+                      "reference is no longer (re)set" % (cname, cf, v, ", ".join(f.path.replace(Z, "") for f in fns)), where(fns[0]))
         lits = rust_literals(allf)
         for v in table.get("literals", {}).get(key, []):
             n += 1
-            ck.decide(v in lits, rule, "%s:literal:%d" % (cname, v), "constant still used",
+            # a comparison re-spelled by one (`>= 258` as `> 257`) keeps its condition pin; the literal then counts as kept
+            moved = v in cond_ok_consts and ((v - 1) in lits or (v + 1) in lits)
+            ck.decide(v in lits or moved, rule, "%s:literal:%d" % (cname, v), "constant still used",
                       "zlib-ng's %s uses the constant %d (0x%x); %s no longer does - a size, threshold or mask of the reference has changed"
                       % (cname, v, v, ", ".join(f.path.replace(Z, "") for f in fns)), where(fns[0]))
         have = rust_callee_names(allf)
